@@ -293,22 +293,20 @@ func (c *FnCtx) evalQuant(env *Env, x *EQuant) Val {
 var sliceIdxRe = regexp.MustCompile(`\(\+ \(s-off ((?:\|[^|]*\|)|[a-z\-]+)\) (\|q\$[^|]*\|)\)`)
 
 func absoluteIndex(body, v, decl string) (string, string, bool) {
-	var base string
-	for _, m := range sliceIdxRe.FindAllStringSubmatch(body, -1) {
-		if m[2] == v {
-			base = m[1]
-			break
-		}
+	if !strings.Contains(body, v) {
+		return body, decl, false
 	}
+	tree := parseSx(body)
+	base := findSliceBase(tree, v)
 	if base == "" {
 		return body, decl, false
 	}
-	mixed := !indexOnlyUse(parseSx(body), v, base)
+	norm := tree.String() // canonical spacing, so that textual replacement of sub-terms is exact
 	a := strings.TrimSuffix(v, "|") + "@abs|"
 	direct := "(+ (s-off " + base + ") " + v + ")"
-	body = strings.ReplaceAll(body, direct, a)
-	body = strings.ReplaceAll(body, v, "(- "+a+" (s-off "+base+"))")
-	return body, "(" + a + " Int)", mixed
+	norm = strings.ReplaceAll(norm, direct, a)
+	norm = strings.ReplaceAll(norm, v, "(- "+a+" (s-off "+base+"))")
+	return norm, "(" + a + " Int)", false
 }
 
 func (c *FnCtx) lookup(env *Env, name string) Val {
@@ -598,6 +596,14 @@ func (c *FnCtx) evalCall(env *Env, x *ECall) Val {
 		if env.old == nil {
 			panic(specError("old() not available here"))
 		}
+		return c.eval(&ne, x.Args[0])
+	case "pre":
+		// pre(e): value of e when the current loop was entered
+		if env.loop == nil || env.loop.pre == nil {
+			panic(specError("pre() outside a loop invariant"))
+		}
+		ne := *env
+		ne.st = env.loop.pre
 		return c.eval(&ne, x.Args[0])
 	case "len":
 		v := arg(0)
